@@ -1278,6 +1278,29 @@ def _flag_tests(ctx, rid, f, cfg, node, flag):
     raise AnalysisError(f"{rid}: {f.qual}: {flag} is read outside an if test (`{norm(st)}`); unrecognised guard form")
 
 
+def _selector_use(f, st, node) -> Optional[list]:
+    """The flag read `node` is used as a capability *selector*, not as a refusal guard: a non-negated operand of `a and b and FLAG`
+    that is returned by a predicate helper or tested by an if, where no sibling operand is an explicit on/off option of the caller
+    (a parameter with a boolean default tested for truth - `if sparse and FLAG:` would silently ignore the request and stays
+    unrecognised).  -> the sibling operands, or None."""
+    top = st.value if isinstance(st, ast.Return) else (st.test if isinstance(st, (ast.If, ast.While)) else None)
+    if top is None:
+        return None
+    if top is node and isinstance(st, ast.Return):
+        sibs = []
+    elif isinstance(top, ast.BoolOp) and isinstance(top.op, ast.And) and any(v is node for v in top.values) and len(top.values) > 1:
+        sibs = [v for v in top.values if v is not node]
+    else:
+        return None
+    for v in sibs:
+        e, _neg = _strip_not(v)
+        if isinstance(e, ast.Name) and e.id in f.params:
+            d = _param_default(f, e.id)
+            if d is None or (isinstance(d, ast.Constant) and (isinstance(d.value, bool) or d.value is None)):
+                return None
+    return sibs
+
+
 def _flag_conjunct(rid, f, st: ast.If, node, flag):
     """(label of the branch taken when the flag is false, the other conditions that must hold for that branch).
     Forms: `[not] FLAG`, `a and ... and not FLAG` (refuses on true), `not a or ... or FLAG` (refuses on false)."""
@@ -1493,6 +1516,13 @@ def r2_capability_flags(ctx, rid):
             if not _is_backend_expr(ctx, f, recv):
                 raise AnalysisError(f"{rid}: {f.qual}: {flag} is read from `{ast.unparse(_root_expr(ctx, f, recv))}`, which is not "
                                     f"recognisably the backend object")
+            sel = _selector_use(f, stmt_of(cfg, node), node)
+            if sel is not None:
+                ctx.ok(rid, f, stmt_of(cfg, node), f"{flag} selects an emission variant: it is a positive condition (`... and {flag}`) next to conditions "
+                                                   f"on the model ({', '.join(norm(x, 40) for x in sel) or 'none'}), none of which is an explicit on/off "
+                                                   f"option of the caller; a backend without the capability takes the path of every model that does "
+                                                   f"not need it", {"flag": flag, "other_conditions": [norm(x, 60) for x in sel]}, nontrivial=False)
+                continue
             for st, tnode in _flag_tests(ctx, rid, f, cfg, node, flag):
                 fail_label, others = _flag_conjunct(rid, f, st, tnode, flag)
                 w = branch_returns(ctx, f, st, fail_label)
@@ -1824,7 +1854,7 @@ def _r4_lift(ctx, rid, f, pos, must_raise, depth, via):
     return None
 
 
-def _r4_follow(ctx, rid, f, st, r, must_raise, depth=0, starts=None, extra_env=None):
+def _r4_follow(ctx, rid, f, st, r, must_raise, depth=0, starts=None, extra_env=None, passthrough=()):
     """Under the assumption that the local `r` (bound at `st`) is empty: a witness (function, path, how) of a silent continuation,
     or None when every continuation passes a reporter.  A private helper that hands `r` back to its callers is followed there."""
     from engine.dataflow import stmt_defs
@@ -1846,7 +1876,7 @@ def _r4_follow(ctx, rid, f, st, r, must_raise, depth=0, starts=None, extra_env=N
         if _is_private(f) and ctx.cg.call_sites_of(f) else {}
 
     def goal(x):
-        return x is cfg.EXIT or x is st or (isinstance(x, (ast.stmt, ast.ExceptHandler)) and r in stmt_defs(x))
+        return x is cfg.EXIT or x is st or (isinstance(x, (ast.stmt, ast.ExceptHandler)) and r in stmt_defs(x) and id(x) not in passthrough)
     env = assume(ctx, f, **{r: Len(0)})
     if extra_env:
         env.update(extra_env)
@@ -1995,7 +2025,10 @@ def r4_empty_selection_reported(ctx, rid):
             wit = _r4_follow(ctx, rid, f, st, r, must_raise, starts=succ(cfg, st, "done"))
         else:
             r = _bound_name(rid, f, st, call, ())
-            wit = _r4_follow(ctx, rid, f, st, r, must_raise)
+            # nothing narrowed stays nothing: a narrowing of the (empty) selection neither ends the path nor hides the later test
+            narrowed = _narrowings(ctx, f, cfg, st, r, narrowers)
+            wit = _r4_follow(ctx, rid, f, st, r, must_raise, extra_env={x: Len(0) for _, x, _a in narrowed},
+                             passthrough={id(s2) for s2, x, _a in narrowed if x == r})
         has_var = _arg(call, 1, "var_identifier") is not None
         facts = {"result": r, "selects_by": "node path and variable" if has_var else "node path", "required": "raise" if must_raise else "warn or raise"}
         if uses:
